@@ -964,17 +964,27 @@ type c11Case struct {
 
 func c11Program(text []string) string { return strings.Join(text, "\n") }
 
-// c11Check compares one case; returns the number of disagreements reported
-func c11Check(c *lib.Ctx, cs c11Case, model string, caseNo int) int {
+type c11Diff struct {
+	sig string
+	rp  map[string]any
+}
+
+// c11Compare runs the history on the implementation and lists every disagreement with the
+// model's reply
+func c11Compare(cs c11Case, model string) (diffs []c11Diff) {
 	req := c11Request(cs.toks)
-	obsReply, boundSegs, extras, text := c11RunImpl(cs.toks, caseNo)
+	c11CaseNo++
+	obsReply, boundSegs, extras, text := c11RunImpl(cs.toks, c11CaseNo)
 	expReply, expSegs := c11Expected(cs.toks, model)
 	meta := c11MetaOf(cs.toks)
-	base := func() map[string]any {
-		return map[string]any{"request": req, "program": c11Program(text), "case": cs.label, "expected_from": "model:flav.run",
-			"relies_on": []string{"SlipVerif.Flavors.tables_eq_spec", "SlipVerif.Flavors.send_order", "SlipVerif.Flavors.vars_inherited_by_precedence"}}
+	add := func(sig string, observed, expected, observation string) {
+		rp := map[string]any{"request": req, "program": c11Program(text), "case": cs.label, "expected_from": "model:flav.run",
+			"relies_on":   []string{"SlipVerif.Flavors.tables_eq_spec", "SlipVerif.Flavors.send_order", "SlipVerif.Flavors.vars_inherited_by_precedence"},
+			"observed":    observed,
+			"expected":    expected,
+			"observation": observation}
+		diffs = append(diffs, c11Diff{sig, rp})
 	}
-	bad := 0
 	if expSegs == nil || !strings.HasPrefix(obsReply, "ok") {
 		// a form was rejected on one side: both must reject the same form
 		ew, ow := strings.Fields(expReply), strings.Fields(obsReply)
@@ -986,12 +996,9 @@ func c11Check(c *lib.Ctx, cs c11Case, model string, caseNo int) int {
 			_, oAt, _ = strings.Cut(ow[1], "@")
 		}
 		if eAt == "" || eAt != oAt {
-			rp := base()
-			rp["observed"], rp["expected"] = obsReply, expReply
-			c.Report("entry=form aspect=condition", cs.sweep, rp)
-			bad++
+			add("entry=form aspect=condition", obsReply, expReply, "evaluation of the forms")
 		}
-		return bad
+		return
 	}
 	obsSegs := strings.Fields(obsReply)[1:]
 	var obs []c11Tok
@@ -1019,11 +1026,7 @@ func c11Check(c *lib.Ctx, cs c11Case, model string, caseNo int) int {
 			default:
 				sig = "entry=precedence aspect=order"
 			}
-			rp := base()
-			rp["observation"] = ob.wire()
-			rp["observed"], rp["expected"] = obsSegs[i], expSegs[i]
-			c.Report(sig, cs.sweep, rp)
-			bad++
+			add(sig, obsSegs[i], expSegs[i], ob.wire())
 		}
 		if ob.K == 'S' {
 			if si < len(boundSegs) && boundSegs[si] != "" {
@@ -1040,23 +1043,98 @@ func c11Check(c *lib.Ctx, cs c11Case, model string, caseNo int) int {
 					if !strings.HasPrefix(er, "p") {
 						b = bt + "/r" + er
 					}
-					rp := base()
-					rp["observation"] = ob.wire() + " through Instance.BoundReceive"
-					rp["observed"], rp["expected"] = boundSegs[si], e
-					c.Report(c11SendSignature(cs.toks, meta, ob, e, b, "bound"), cs.sweep, rp)
-					bad++
+					add(c11SendSignature(cs.toks, meta, ob, e, b, "bound"), boundSegs[si], e, ob.wire()+" through Instance.BoundReceive")
 				}
 			}
 			si++
 		}
 	}
 	for _, x := range extras {
-		rp := base()
-		rp["observed"], rp["expected"] = x, "make-instance accepts exactly the init keywords the flavor has"
-		c.Report("entry=slot kind=init-keyword aspect=acceptance", cs.sweep, rp)
-		bad++
+		add("entry=slot kind=init-keyword aspect=acceptance", x, "make-instance accepts exactly the init keywords the flavor has", "make-instance with the keyword")
 	}
-	return bad
+	return
+}
+
+// c11Without removes token i; removing a defflavor also removes everything that names the flavor
+// (ok=false when another flavor has it as a component)
+func c11Without(toks []c11Tok, i int) (out []c11Tok, ok bool) {
+	t := toks[i]
+	if t.K != 'F' {
+		out = append(out, toks[:i]...)
+		return append(out, toks[i+1:]...), true
+	}
+	for _, u := range toks {
+		if u.K == 'F' && u.Fl != t.Fl {
+			for _, c := range u.Comps {
+				if c == t.Fl {
+					return nil, false
+				}
+			}
+		}
+	}
+	for _, u := range toks {
+		if u.Fl != t.Fl {
+			out = append(out, u)
+		}
+	}
+	return out, true
+}
+
+// c11Shrink removes forms and observations as long as a disagreement with the same signature
+// remains (greedy one-at-a-time deletion, repeated until nothing more can go)
+func c11Shrink(c *lib.Ctx, cs c11Case, sig string) (c11Case, map[string]any) {
+	var best map[string]any
+	has := func(toks []c11Tok) map[string]any {
+		cand := c11Case{toks: toks, sweep: cs.sweep, label: cs.label + " (shrunk)"}
+		model := c.Model([]string{c11Request(toks)})[0]
+		for _, d := range c11Compare(cand, model) {
+			if d.sig == sig {
+				return d.rp
+			}
+		}
+		return nil
+	}
+	cur := cs.toks
+	for pass := 0; pass < 4; pass++ {
+		changed := false
+		for i := len(cur) - 1; i >= 0; i-- {
+			if i >= len(cur) {
+				continue
+			}
+			cand, ok := c11Without(cur, i)
+			if !ok || len(cand) == 0 {
+				continue
+			}
+			if rp := has(cand); rp != nil {
+				cur, best, changed = cand, rp, true
+			}
+		}
+		if !changed {
+			break
+		}
+	}
+	return c11Case{toks: cur, sweep: cs.sweep, label: cs.label}, best
+}
+
+var c11Shrunk = map[string]bool{}
+
+// c11Check compares one case and reports its disagreements (the first one of every signature
+// shrunk to a minimal history); returns the number of disagreements
+func c11Check(c *lib.Ctx, cs c11Case, model string) int {
+	diffs := c11Compare(cs, model)
+	for _, d := range diffs {
+		rp := d.rp
+		known := cs.sweep && c.Findings.Match(c.Prop, d.sig) != nil
+		if !known && !c11Shrunk[d.sig] && len(c11Shrunk) < 40 && c.Replay == "" {
+			c11Shrunk[d.sig] = true
+			if _, small := c11Shrink(c, cs, d.sig); small != nil {
+				small["found_in"] = cs.label
+				rp = small
+			}
+		}
+		c.Report(d.sig, cs.sweep, rp)
+	}
+	return len(diffs)
 }
 
 func c11Replay(c *lib.Ctx) {
@@ -1083,9 +1161,10 @@ func c11Replay(c *lib.Ctx) {
 	model := c.Model([]string{req})[0]
 	obsReply, boundSegs, extras, text := c11RunImpl(toks, 1)
 	expReply, _ := c11Expected(toks, model)
+	c11CaseNo = 1
 	fmt.Printf("replay of %s\n%s\n  implementation : %s\n  bound entry    : %s\n  model          : %s\n  extras         : %v\n",
 		c.Replay, c11Program(text), obsReply, strings.Join(boundSegs, " "), expReply, extras)
-	c11Check(c, c11Case{toks: toks, label: "replay"}, model, 2)
+	c11Check(c, c11Case{toks: toks, label: "replay"}, model)
 }
 
 func runC11(c *lib.Ctx) {
@@ -1213,11 +1292,11 @@ func runC11(c *lib.Ctx) {
 		}
 		c.Ev.Case(reqs[i], nontrivial)
 		if i%(len(cases)/10+1) == 0 {
-			o, _, _, text := c11RunImpl(cs.toks, 1000000+i)
+			c11CaseNo++
+			o, _, _, text := c11RunImpl(cs.toks, c11CaseNo)
 			c.Ev.Sample(map[string]string{"case": cs.label, "program": c11Program(text), "impl": o, "model": replies[i]})
 		}
-		c11CaseNo++
-		if c11Check(c, cs, replies[i], c11CaseNo) == 0 {
+		if c11Check(c, cs, replies[i]) == 0 {
 			agree++
 		}
 	}
